@@ -1,5 +1,12 @@
 (* C17_Properties.v — the property theorems of C17 and nothing else (over Op_Model). *)
-From Verif Require Import Common Op_Model Op_Proofs.
+From Verif Require Import Common Op_Model Op_Corr Op_Proofs C17_Spec C17_Proofs.
+
+(* the property's decidable predicate (C17_Spec.P: after the Stop step no execution is new, a
+   worker is stopped exactly when its queue is not in a handler; before it no worker is
+   stopped) holds of the model's observations for EVERY configuration and action sequence *)
+Theorem C17_P_holds : forall cfg acts, P (cfg, acts, Op_Corr.model_obs (cfg, acts, [])) = true.
+Proof. exact P_holds. Qed.
+Print Assumptions C17_P_holds.
 
 (* once requested, shutdown stays in force whatever happens next *)
 Theorem C17_stop_is_permanent : forall cfg acts s, stopped s = true -> stopped (exec cfg acts s) = true.
